@@ -411,7 +411,7 @@ pub fn random_stmt(rng: &mut Rng, labels: &[String], stack: bool) -> Item {
         20 => fill(if rng.chance(1, 2) { rng.range(-32768, 65535) } else { rng.boundary_word() as i64 }),
         21 => blkw(rng.range(0, 6)),
         22 => {
-            const STRS: [&str; 8] = ["", "a", "Hello, world!", "tab\there", "quote\"q", "back\\slash", "nl\n", "é ü ✓"];
+            const STRS: [&str; 10] = ["", "a", "Hello, world!", "tab\there", "quote\"q", "back\\slash", "nl\n", "é ü ✓", "C:\\new\\table\\r", "\\\\n"];
             stringz(*rng.pick(&STRS))
         }
         23 => reg1("push", r(rng)),
